@@ -192,6 +192,48 @@ func run(w *core.Worker, c Case) {
 	}
 }
 
+
+// FuzzBTree (thorough tier): coverage-guided fuzzing over Put/Remove/Get scripts with single keys
+// and runs of 32 consecutive keys (ascending or descending), judged by the same run oracle.
+func FuzzBTree(f *testing.F) {
+	f.Add([]byte{3, 0, 3, 32, 4, 0, 0, 7, 2, 7, 1, 7, 2, 7})
+	f.Add([]byte{5, 200, 0, 1, 1, 1, 1, 1, 0, 1})
+	f.Fuzz(func(t *testing.T, data []byte) {
+		if len(data) > 80 {
+			data = data[:80]
+		}
+		c := Case{Full: true, Every: 9, Keys: -1}
+		for i := 0; i+1 < len(data); i += 2 {
+			k := int(data[i+1])
+			switch data[i] % 6 {
+			case 0:
+				c.Ops = append(c.Ops, Op{"put", k})
+			case 1:
+				c.Ops = append(c.Ops, Op{"remove", k})
+			case 2:
+				c.Ops = append(c.Ops, Op{"get", k})
+			case 3:
+				for j := 0; j < 32; j++ {
+					c.Ops = append(c.Ops, Op{"put", k + j})
+				}
+			case 4:
+				for j := 0; j < 32; j++ {
+					c.Ops = append(c.Ops, Op{"remove", k + j})
+				}
+			default:
+				for j := 31; j >= 0; j-- {
+					c.Ops = append(c.Ops, Op{"put", k + j})
+				}
+			}
+		}
+		if len(c.Ops) == 0 {
+			return
+		}
+		w := core.Probe(func(sig, detail string) { t.Fatalf("VERIF-SIG %s\nVERIF-CASE %s\n%s", sig, core.JSON(c), detail) })
+		run(w, c)
+	})
+}
+
 func TestProp(t *testing.T) {
 	r := core.Start(t, "C10")
 	defer r.Finish()
